@@ -2,6 +2,11 @@
 
 package parser
 
+// C13 (determinism): every function below belongs to it - its effect clause (no random, clock or environment
+// effect beyond the declared ones), frame, call preconditions and loop invariants are proved for every iteration
+// order of every map it ranges over.
+//@ fileprops C13
+
 // Contracts for the deductive verifier in /verif (govc).  This file contains comments only;
 // it is compiled only with -tags verif and declares nothing.
 
@@ -44,10 +49,10 @@ package parser
 //@   effects log, warn
 //@   assigns *opts
 //@   ensures {C09,C14} option.optsInv(*opts) && disjoint(opts.NameMapper, opts.TemplatedNameMapper)
-//@   ensures {C09} err == nil ==> opts.ExactCase == toggleAfter(old(opts.ExactCase), notations, validOps, len(notations), "case", "case:off")
-//@   ensures {C09} err == nil ==> opts.Getter == toggleAfter(old(opts.Getter), notations, validOps, len(notations), "getter", "getter:off")
-//@   ensures {C09} err == nil ==> opts.Stringer == toggleAfter(old(opts.Stringer), notations, validOps, len(notations), "stringer", "stringer:off")
-//@   ensures {C09} err == nil ==> opts.Typecast == toggleAfter(old(opts.Typecast), notations, validOps, len(notations), "typecast", "typecast:off")
+//@   ensures {C09,C04} err == nil ==> opts.ExactCase == toggleAfter(old(opts.ExactCase), notations, validOps, len(notations), "case", "case:off")
+//@   ensures {C09,C04} err == nil ==> opts.Getter == toggleAfter(old(opts.Getter), notations, validOps, len(notations), "getter", "getter:off")
+//@   ensures {C09,C04} err == nil ==> opts.Stringer == toggleAfter(old(opts.Stringer), notations, validOps, len(notations), "stringer", "stringer:off")
+//@   ensures {C09,C04,C16} err == nil ==> opts.Typecast == toggleAfter(old(opts.Typecast), notations, validOps, len(notations), "typecast", "typecast:off")
 //@   ensures {C09,C08} err == nil ==> opts.Style == styleAfter(old(opts.Style), notations, validOps, len(notations))
 //@   ensures {C09,C04} err == nil ==> opts.Rule == ruleAfter(old(opts.Rule), notations, validOps, len(notations))
 //@   ensures {C08,C03} err == nil ==> !(opts.Reverse && opts.Style == gmodel.DstVarReturn)
@@ -144,11 +149,11 @@ package parser
 //@   ensures {C11} err == nil ==> m.DocComment == old(util.declDoc(p.file, method))
 //@   ensures {C09} err == nil && old(noNotes(util.declDoc(p.file, method))) ==> sixEqual(m.Opts, opts)
 //@   ensures err != nil ==> m == nil
-//@   check {C09} err == nil ==> m.Opts.ExactCase == toggleAfter(old(opts.ExactCase), notations, option.ValidOpsMethod, len(notations), "case", "case:off")
-//@   check {C09} err == nil ==> m.Opts.Getter == toggleAfter(old(opts.Getter), notations, option.ValidOpsMethod, len(notations), "getter", "getter:off")
-//@   check {C09} err == nil ==> m.Opts.Stringer == toggleAfter(old(opts.Stringer), notations, option.ValidOpsMethod, len(notations), "stringer", "stringer:off")
-//@   check {C09} err == nil ==> m.Opts.Typecast == toggleAfter(old(opts.Typecast), notations, option.ValidOpsMethod, len(notations), "typecast", "typecast:off")
-//@   check {C09} err == nil ==> m.Opts.Style == styleAfter(old(opts.Style), notations, option.ValidOpsMethod, len(notations))
+//@   check {C09,C04} err == nil ==> m.Opts.ExactCase == toggleAfter(old(opts.ExactCase), notations, option.ValidOpsMethod, len(notations), "case", "case:off")
+//@   check {C09,C04} err == nil ==> m.Opts.Getter == toggleAfter(old(opts.Getter), notations, option.ValidOpsMethod, len(notations), "getter", "getter:off")
+//@   check {C09,C04} err == nil ==> m.Opts.Stringer == toggleAfter(old(opts.Stringer), notations, option.ValidOpsMethod, len(notations), "stringer", "stringer:off")
+//@   check {C09,C04,C16} err == nil ==> m.Opts.Typecast == toggleAfter(old(opts.Typecast), notations, option.ValidOpsMethod, len(notations), "typecast", "typecast:off")
+//@   check {C09,C08} err == nil ==> m.Opts.Style == styleAfter(old(opts.Style), notations, option.ValidOpsMethod, len(notations))
 //@   check {C09} err == nil ==> m.Opts.Rule == ruleAfter(old(opts.Rule), notations, option.ValidOpsMethod, len(notations))
 //@
 //@ spec wfIntf(e *intfEntry) bool =
@@ -187,13 +192,13 @@ package parser
 //@   atcall append: {C17} objName(obj) == intfName || isTarget
 //@   atcall ExtractMatchComments: {C11,C17} isTarget && $arg1 == reNotation
 //@   atcall append: {C17} isIface(obj) && inFile(p, obj)
-//@   atcall append: {C09} opts.ExactCase == toggleAfter(p.opts.ExactCase, notations, option.ValidOpsIntf, len(notations), "case", "case:off")
-//@   atcall append: {C09} opts.Getter == toggleAfter(p.opts.Getter, notations, option.ValidOpsIntf, len(notations), "getter", "getter:off")
-//@   atcall append: {C09} opts.Stringer == toggleAfter(p.opts.Stringer, notations, option.ValidOpsIntf, len(notations), "stringer", "stringer:off")
-//@   atcall append: {C09} opts.Typecast == toggleAfter(p.opts.Typecast, notations, option.ValidOpsIntf, len(notations), "typecast", "typecast:off")
+//@   atcall append: {C09,C04} opts.ExactCase == toggleAfter(p.opts.ExactCase, notations, option.ValidOpsIntf, len(notations), "case", "case:off")
+//@   atcall append: {C09,C04} opts.Getter == toggleAfter(p.opts.Getter, notations, option.ValidOpsIntf, len(notations), "getter", "getter:off")
+//@   atcall append: {C09,C04} opts.Stringer == toggleAfter(p.opts.Stringer, notations, option.ValidOpsIntf, len(notations), "stringer", "stringer:off")
+//@   atcall append: {C09,C04,C16} opts.Typecast == toggleAfter(p.opts.Typecast, notations, option.ValidOpsIntf, len(notations), "typecast", "typecast:off")
 //@   atcall append: {C09,C08} opts.Style == styleAfter(p.opts.Style, notations, option.ValidOpsIntf, len(notations))
 //@   atcall append: {C09,C04} opts.Rule == ruleAfter(p.opts.Rule, notations, option.ValidOpsIntf, len(notations))
-//@   atcall append: {C09,C17} entry != nil && entry.intf == obj && sixEqual(entry.opts, *opts)
+//@   atcall append: {C09,C17,C04,C08,C16} entry != nil && entry.intf == obj && sixEqual(entry.opts, *opts)
 //@   atcall append: {C17,C13,C03} isMarker(entry.marker)
 //@   loop 1 invariant $k <= scopeLen(scope) && fresh(entries) && sameOld(entries)
 //@   loop 1 invariant forall(i, 0, len(entries), wfIntf(entries[i]) && isIface(entries[i].intf) && inFile(p, entries[i].intf))
